@@ -10,7 +10,8 @@ NRECT = 4     # rectangles rc_rects(): 0 = [1,3]^2 x step (F-RC), 1 narrow align
 RULE = ("family F-RC: closed paths on the 5x5 lattice (step 8 units) against rectangle [8,24]^2 (vertices on sides/corners), plus a narrow aligned, an "
         "off-lattice and the hull rectangle; ALL 15 625 three-vertex paths are enumerated by TLC (GenRC.tla) and replayed; four-vertex paths sampled "
         "(quick) or all 390 625 enumerated by index (thorough); 5-9-vertex random paths and ring walks that enclose the rectangle or wind round it "
-        "several times; random paths with arbitrary integer vertices (off the lattice); embeddings: identity, translation to |coordinate| = 2^40, scale 3 and 7 with translation (exact: TLC sees real - t and recomputes "
+        "several times; random paths with arbitrary integer vertices (off the lattice); simple 6-14-vertex bands wrapped round 2-4 sides outside the "
+        "rectangle (running along the sides, touching corners, returning further out); embeddings: identity, translation to |coordinate| = 2^40, scale 3 and 7 with translation (exact: TLC sees real - t and recomputes "
         "every measurement from the raw result), scale 2^13 and 2^35 (coarse: TLC judges harness measurements taken on the real coordinates); every path "
         "is clipped alone and in batches of 3; per call TLC decides simple / edge-along-side / inside / outside and evaluates the winding clause at up to "
         "100 interior sample points clear of the path, vertex clauses, orientation, unchanged/vanish clauses; non-trivial = the library returned a "
@@ -125,7 +126,7 @@ def plan(ctx, sub, gen, nshort):
     q = ctx.quick; s = ctx.seed; J = []
     def add(**a):
         # sampled families alternate between the default build and CLIPPER2_HI_PRECISION (other intersection-point code); the enumerated ones use the default
-        variant = "hi" if a["fam"] in ("samp", "rand", "orbit", "free") and len(J) % 2 == 1 else "plain"
+        variant = "hi" if a["fam"] in ("samp", "rand", "orbit", "free", "band") and len(J) % 2 == 1 else "plain"
         J.append(job(ctx, len(J), sub, a, variant))
     # (1) TLC-enumerated short paths, complete, on F-RC's rectangle at the identity embedding (sub-unit rounding visible)
     nsh = 16
@@ -158,6 +159,12 @@ def plan(ctx, sub, gen, nshort):
     for k in range(8 if q else 32):
         e, r = allc[(k * 13 + 2 + s) % len(allc)]
         add(fam="free", n=300 if q else 1200, nvlo=3 if sub == "rc" else 2, nvhi=7, emb=e, rect=r, batch=3, seed=s * 1000 + 300 + k)
+    # (6) C08 only: simple polygons with 6-14 vertices wrapped round 2-4 sides of the rectangle OUTSIDE it (bands running along / one to three
+    #     units off the sides and returning further out, jogs, bulges that only touch the corners) - the class where known finding C08-S1 lives
+    if sub == "rc":
+        for k in range(8 if q else 32):
+            e, r = allc[(k * 17 + 5 + s) % len(allc)]
+            add(fam="band", n=300 if q else 1500, emb=e, rect=r, batch=3, seed=s * 1000 + 400 + k)
     return J
 
 def fsm(ctx):
@@ -195,7 +202,7 @@ def fsm(ctx):
         core.log("[C08] %d divergence(s) between RectClipFSM and the library (recorded in the evidence; not a verdict, see DESIGN.md 3.6)" % len(div))
     return nb
 
-STAT_NAMES = ["cases", "simple", "edge_along_side", "all_inside", "entirely_outside", "judged_sample_points", "batches"]
+STAT_NAMES = ["cases", "simple", "edge_along_side", "all_inside", "entirely_outside", "judged_sample_points", "batches", "class_C08_S1_corners_on_path"]
 
 def run(ctx):
     nbeh = fsm(ctx)
